@@ -24,6 +24,14 @@ Step ==
           \cup (IF Ev.tok = "valid" /\ Ev.status = 401
                   THEN {V("harness_sanity_valid_token_rejected", [route |-> Ev.route])} ELSE {})
      /\ div' = div
+  \* a non-canonical spelling of a registered resource, sent without an acceptable token: refused (401), not found
+  \* (404 / 405) or redirected (3xx) -- never served, and without any effect
+  \/ /\ Ev.action = "spell"
+     /\ viol' = viol
+          \cup (IF Ev.status \notin {401, 404, 405, 301, 302, 307, 308} \/ Ev.effects # <<>>
+                  THEN {V("no_route_outside_the_protected_groups", [method |-> Ev.method, route |-> Ev.route, tok |-> Ev.tok, spelling |-> Ev.spelling,
+                                                                     status |-> Ev.status, effects |-> Ev.effects])} ELSE {})
+     /\ div' = div
 \* the premise of C13: the CHF registers with a scripted NRF through the real Server.Run, then an unauthenticated request
 \* is sent to the SBI listener over HTTP/2 cleartext
 Nrf ==
